@@ -78,6 +78,19 @@ def run(rep, tier, seed, model_ok=True, effort=1):
         items.append("(%s,%s,[%s],%s)" % (cs(name), cs(cmd), ";".join("(%s,%s)" % (cs(k), cs(v)) for k, v in kw.items()),
                                           "None" if argv is None else "(Some [%s])" % ";".join(cs(a) for a in argv)))
         meta.append(dict(vcs=name, cmd=cmd, kwargs=kw, argv=argv))
+    # a failing VCS command is never "repaired" by a command that drops the value: when `git tag --annotate ... --message <msg>` fails, either the
+    # update fails or the message has reached git; a lightweight tag without the message is not an outcome
+    for vcs in ("fakegit", "fakehg"):
+        prj = project.TempProject("MAJOR.MINOR.PATCH", "1.2.3", files={"a.txt": ["ver = {version}"]}, commit=True, tag=True, push=False, vcs=vcs,
+                                  vcs_cfg=dict(tags=[], status="", remote=None, fail_argv=["--annotate"] if vcs == "fakegit" else ["--message"]),
+                                  tag_message="release notes for {new_version}")
+        with prj:
+            code, out, logs, exc = prj.run(impl, ["update", "--patch", "--no-fetch"])
+            tags = [e["argv"] for e in prj.vcs_log() if e["key"] == "tag"]
+        rep.case(("tag-failure", vcs), nontrivial=True)
+        if code == 0 and not any("release notes for 1.2.4" in a for t in tags for a in t[-3:] if isinstance(a, str) and t is tags[-1]):
+            rep.violation("the tag command failed and the update still exits 0 with a tag that does not carry the tag message", input=dict(vcs=vcs, exit=code, tag_commands=tags, logs=logs[-3:]),
+                          **{"class": "message-dropped"})
     # end to end through `update`
     for i in range(n):
         vcs = r.choice(["fakegit", "fakegit", "fakehg"])
